@@ -27,12 +27,12 @@ RULE = ('seeded acyclic workbooks (vp.wbgen.dag, sometimes with a CSE array) and
         'injected fault actually raised.')
 BUDGET = {'quick': 30, 'thorough': 300}
 FLOORS = {
-    'quick': {'cases': 600, 'faults_raised': 500, 'retries': 800, 'unrelated_compares': 1500,
-              'second_failures': 150, 'repairs': 400, 'repair_compares': 3000, 'mode:plain': 200,
-              'mode:iterative': 200, 'kind:nosuch': 50, 'kind:failk-always': 50, 'kind:failk-once': 50, 'kind:failname': 50,
-              'kind:nosuch-keyword': 50, 'kind:no-parse': 50, 'kind:missing-sheet': 50,
+    'quick': {'cases': 250, 'faults_raised': 200, 'retries': 400, 'unrelated_compares': 700,
+              'second_failures': 60, 'repairs': 150, 'repair_compares': 1200, 'mode:plain': 80,
+              'mode:iterative': 80, 'kind:nosuch': 20, 'kind:failk-always': 20, 'kind:failk-once': 20, 'kind:failname': 20,
+              'kind:nosuch-keyword': 20, 'kind:no-parse': 20, 'kind:missing-sheet': 20,
               'pos:leaf': 50, 'pos:mid-chain': 50, 'pos:in-range': 50, 'pos:cse': 10, 'pos:cycle': 20,
-              'first:probe': 100, 'h2_events': 5000, 'real_book_cases': 15, 'real_faults_raised': 15},
+              'first:probe': 40, 'h2_events': 2000, 'real_book_cases': 4, 'real_faults_raised': 4},
     'thorough': {'cases': 12000, 'second_failures': 3000, 'pos:cse': 200, 'pos:cycle': 500},
 }
 for _tier in FLOORS:
